@@ -169,13 +169,14 @@ def main() -> int:
         "notes": ctx.notes,
     }
     cov.update(ctx.extra)
+    n_obl, n_dis = cov["obligations"], cov["discharged"]
     if cov["discharged"] == 0 or cov["obligations"] == 0:
         # schema: a proof-level file needs >=1 discharged obligation; with none, report the counts
         # under other names and fall back to the exploration-style keys
         cov["obligations_total"] = cov.pop("obligations")
         cov["discharged_count"] = cov.pop("discharged")
     C.write_evidence(prop, args.tier, seed, level, cov, getattr(mod, "ASSUMPTIONS", []), wall, nviol)
-    print(f"{prop} tier={args.tier} seed={seed}: theorems {cov['discharged']}/{cov['obligations']} "
+    print(f"{prop} tier={args.tier} seed={seed}: theorems {n_dis}/{n_obl} "
           f"cases={ctx.evaluations} distinct={ctx.distinct} disagreements={len(ctx.disagreements)} "
           f"known={len(known_seen)} violations={nviol} wall={wall:.1f}s")
     return exit_code
